@@ -16,9 +16,17 @@ Time stamps are the `u128` milliseconds `(msg.timestamp * 1e3) as u128` the code
 multiplication and the saturating cast are done by the harness; DESIGN §6.5).  Decodability
 (`Message::from_bytes((&frame, 0)).is_ok()`) is a parameter.
 
+The comparison operators and constants of the loop (`curtime > timestamp_ms`, `timestamp_ms + threshold`,
+`len() == 1`, the factor `1e3`) and its structural facts (flush at end of input present/absent) are NOT
+written here: they come from `Gen/Dedup.lean`, regenerated from both source files on every run by
+`gen/extractors/dedup.py`, which also compares the rest of both texts verbatim with the text modelled
+here.  `Props/C10.lean` (`jet_loop_as_modelled`, `decode1090_loop_as_modelled`, `copies_agree`) states what
+the proofs need of the generated definitions.
+
 Core Lean only.  Loops are structural recursion on a fuel that the theorems show is never exhausted.
 -/
 import Rs1090.Model.Basic
+import Rs1090.Gen.Dedup
 namespace Rs1090.Dedup
 
 /-! ### Vocabulary (shared with Spec/Dedup.lean) -/
@@ -112,8 +120,8 @@ def expire (t : Nat) : Nat → State → State × List Group
     match popMin s.heap with
     | none => (s, [])
     | some (k, h) =>
-      if t < k.1 then
-        -- `curtime > timestamp_ms`: push it back and stop
+      if Gen.Dedup.Jet.notExpired k.1 t then
+        -- `curtime > timestamp_ms` (operator from the source): push it back and stop
         (⟨s.cache, k :: h⟩, [])
       else
         match remove s.cache k.2 with
@@ -125,7 +133,8 @@ def expire (t : Nat) : Nat → State → State × List Group
 /-- Lines 28-40 of dedup.rs, then the expiry loop: new state and the groups that were closed. -/
 def stepG (w : Nat) (s : State) (a : Arrival) : State × List Group :=
   let c := push s.cache a
-  let h := if ((get c a.frame).getD []).length = 1 then (a.t + w, a.frame) :: s.heap else s.heap
+  let h := if Gen.Dedup.Jet.isFirst ((get c a.frame).getD []).length
+    then (Gen.Dedup.Jet.expiry a.t w, a.frame) :: s.heap else s.heap
   expire a.t (h.length + 1) ⟨c, h⟩
 
 /-- Lines 52-77: merge the metadata of all entries in order into the first entry and send it if
@@ -159,14 +168,23 @@ def run (w : Nat) (decodable : Frame → Bool) : State → List Arrival → Stat
 /-- the receptions still waiting in the cache -/
 def pending (s : State) : List Arrival := (s.cache.map (·.2)).flatten
 
-/-! ### decode1090's inline copy (crates/decode1090/src/main.rs:96-160)
+/-! ### Time stamps
 
-The same loop body over the lines of a file (`timestamp_ms + options.deduplication` in u128), then
-`while let Some(Reverse((_curtime, frame))) = expiration_heap.pop()` flushes whatever is left, in
-heap order.  jet1090's `deduplicate_messages` has no such flush: what is pending when the input
-channel closes is dropped with the task. -/
+`let timestamp_ms = (msg.timestamp * 1e3) as u128;` — the f64 product and the saturating cast are executed
+by the harness, which writes every arrival as the whole number `m = (ts * 1e3) as u128` it computes with ITS
+copy of the expression.  `timestampMs factor m` is the value the loop computes for that time stamp under the
+factor found in the source (the identity for 1000: `Props/C10.lean: timestampMs_id`), so that the factor of
+either copy is part of the model the harness's histories are run through. -/
 
-/-- the flush at end of file: every remaining group, in the order the heap yields them -/
+def timestampMs (factor m : Nat) : Nat := m * factor / 1000
+
+/-! ### jet1090 at the end of its input
+
+`deduplicate_messages` returns when the input channel is closed; whether anything is sent then is the
+structural fact `Gen.Dedup.Jet.flushAtEof` read from the source (today: no second loop, what is pending is
+dropped with the task). -/
+
+/-- the flush at end of input: every remaining group, in the order the heap yields them -/
 def flush : Nat → State → List Group
   | 0, _ => []
   | n + 1, s =>
@@ -177,10 +195,54 @@ def flush : Nat → State → List Group
       | none => flush n ⟨s.cache, h⟩
       | some (ms, c) => (k.2, ms) :: flush n ⟨c, h⟩
 
+/-- everything jet1090 sends for a history after which the input channel is closed -/
+def runClose (w : Nat) (decodable : Frame → Bool) (hist : List Arrival) : List Record :=
+  let r := run w decodable init hist
+  r.2 ++ (if Gen.Dedup.Jet.flushAtEof then (flush r.1.heap.length r.1).flatMap (emit decodable) else [])
+
+/-! ### decode1090's inline copy (crates/decode1090/src/main.rs, the block `if let Some(mut file) = input_file`)
+
+The Rust source has a second copy of the loop body, over the lines of a file (`timestamp_ms +
+options.deduplication` in u128, entries handed to `process_entries`, which builds the record from the FIRST
+entry with the metadata of all and writes it when the frame decodes); so has the model: `expireD`/`stepGD`
+are the same text as `expire`/`stepG` with the operators extracted from THAT copy
+(`Gen.Dedup.Decode1090.*`).  `Props/C10.lean: decode1090_loop_as_modelled` proves the two equal.  After the
+loop, `while let Some(Reverse((_curtime, frame))) = expiration_heap.pop()` flushes whatever is left, in heap
+order (`Gen.Dedup.Decode1090.flushAtEof`). -/
+
+def expireD (t : Nat) : Nat → State → State × List Group
+  | 0, s => (s, [])
+  | n + 1, s =>
+    match popMin s.heap with
+    | none => (s, [])
+    | some (k, h) =>
+      if Gen.Dedup.Decode1090.notExpired k.1 t then
+        (⟨s.cache, k :: h⟩, [])
+      else
+        match remove s.cache k.2 with
+        | none => expireD t n ⟨s.cache, h⟩
+        | some (ms, c) =>
+          let r := expireD t n ⟨c, h⟩
+          (r.1, (k.2, ms) :: r.2)
+
+def stepGD (w : Nat) (s : State) (a : Arrival) : State × List Group :=
+  let c := push s.cache a
+  let h := if Gen.Dedup.Decode1090.isFirst ((get c a.frame).getD []).length
+    then (Gen.Dedup.Decode1090.expiry a.t w, a.frame) :: s.heap else s.heap
+  expireD a.t (h.length + 1) ⟨c, h⟩
+
+/-- the lines of a file, one after the other: final state and the records written so far -/
+def runD (w : Nat) (decodable : Frame → Bool) : State → List Arrival → State × List Record
+  | s, [] => (s, [])
+  | s, a :: as =>
+    let r := stepGD w s a
+    let r' := runD w decodable r.1 as
+    (r'.1, r.2.flatMap (emit decodable) ++ r'.2)
+
 /-- a whole file: the records written -/
 def runFlush (w : Nat) (decodable : Frame → Bool) (hist : List Arrival) : List Record :=
-  let r := run w decodable init hist
-  r.2 ++ (flush r.1.heap.length r.1).flatMap (emit decodable)
+  let r := runD w decodable init hist
+  r.2 ++ (if Gen.Dedup.Decode1090.flushAtEof then (flush r.1.heap.length r.1).flatMap (emit decodable) else [])
 
 /-! ### The same with Rust's panic sites
 
@@ -195,7 +257,7 @@ def expireChecked (t : Nat) : Nat → State → Outcome (State × List Group)
     match popMin s.heap with
     | none => .ok (s, [])
     | some (k, h) =>
-      if t < k.1 then .ok (⟨s.cache, k :: h⟩, [])
+      if Gen.Dedup.Jet.notExpired k.1 t then .ok (⟨s.cache, k :: h⟩, [])
       else
         match remove s.cache k.2 with
         | none => expireChecked t n ⟨s.cache, h⟩
@@ -212,9 +274,9 @@ def stepChecked (w : Nat) (decodable : Frame → Bool) (s : State) (a : Arrival)
   match get c a.frame with
   | none => .panic .index
   | some ms =>
-    if ms.length = 1 then
-      if a.t + w < 2 ^ 128 then
-        let h := (a.t + w, a.frame) :: s.heap
+    if Gen.Dedup.Jet.isFirst ms.length then
+      if Gen.Dedup.Jet.expiry a.t w < 2 ^ 128 then
+        let h := (Gen.Dedup.Jet.expiry a.t w, a.frame) :: s.heap
         match expireChecked a.t (h.length + 1) ⟨c, h⟩ with
         | .ok r => .ok (r.1, r.2.flatMap (emit decodable))
         | .err e => .err e
